@@ -13,7 +13,7 @@ Local Open Scope list_scope.
 Inductive gkey := GId (s : str) | GStr (b : str).
 Definition gkey_tok (k : gkey) : tk := match k with GId s => KId s | GStr b => KStr DQ b end.
 Definition gkey_ast (k : gkey) : key := match k with GId s => KeyId s | GStr b => KeyStr b end.
-Definition gkey_ok (k : gkey) : bool := match k with GId s => is_ts_identifier s | GStr b => str_body_ok DQ b end.
+Definition gkey_ok (k : gkey) : bool := match k with GId s => is_ident_name s | GStr b => str_body_ok DQ b end.
 Record gmember := { gm_key : gkey; gm_opt : bool; gm_toks : list tk }.
 Definition good_member (m : gmember) : Prop :=
   gkey_ok (gm_key m) = true /\
@@ -51,7 +51,8 @@ Lemma p_members_member n k (opt : bool) toks t tail acc ix :
   p_members ptype (S n) (gkey_tok k :: (if opt then [P "?"] else []) ++ P ":" :: toks ++ P ";" :: tail) acc ix =
   p_members ptype n (P ";" :: tail) ((gkey_ast k, opt, t) :: acc) ix.
 Proof. intros Hk Hp. destruct k as [k|b]; cbn [gkey_tok gkey_ast gkey_ok] in *.
-  - assert (tk_is "}" (KId k) = false) as H1 by (apply (tk_is_ident_punct k "}" "}"%char); auto).
+  - unfold is_ident_name in Hk. apply andb_true_iff in Hk as [Hk _].
+    assert (tk_is "}" (KId k) = false) as H1 by (apply (tk_is_ident_punct k "}" "}"%char); auto).
     assert (tk_is ";" (KId k) = false) as H2 by (apply (tk_is_ident_punct k ";" ";"%char); auto).
     assert (tk_is "," (KId k) = false) as H3 by (apply (tk_is_ident_punct k "," ","%char); auto).
     assert (tk_is "[" (KId k) = false) as H4 by (apply (tk_is_ident_punct k "[" "["%char); auto).
